@@ -26,7 +26,16 @@ def run(pid, replay=None):
         if not os.environ.get("VERIF_DEV_SKIP_MC"):
             vlib.tlc_must_pass(mc, "Pool " + cfg)
         log("Pool %s: %d generated / %d distinct states, %.1fs" % (cfg, mc.generated, mc.distinct, mc.wall))
-        directed = json.load(open(os.path.join(SPEC, "counterexamples.json")))
+        # directed behaviours: the schedules that break a property when one of the repairs is missing, from the
+        # current model (so they follow every refinement of it), a few per disabled repair, shortest first
+        directed = []
+        for k in range(1, 6):
+            sink = []
+            r = vlib.run_tlc(pid, "off%d" % k, SPEC, "Pool", "MC_off%d.cfg" % k, timeout=1800, line_sink=sink.append)
+            if r.timeout or not sink:
+                raise vlib.Infra("Pool MC_off%d.cfg printed no schedule: %s" % (k, r.raw[-600:]))
+            pick = sink[:4] + [sink[int(j * len(sink) / 5.0)] for j in range(1, 5)]
+            directed += [{"hist": d["hist"], "max": d["max"], "violates": d["violates"], "fixoff": k} for d in pick]
         n = 3000 if thorough else 300
         behs = [{"hist": d["hist"], "max": d.get("max", 1)} for d in directed]
         for mx in (1, 2):
